@@ -902,3 +902,21 @@ mod tests {
         assert_eq!(svc, deserialized_svc);
     }
 }
+
+/// Verification hook: a classifier built from its parts (so that the prediction formula can be evaluated on an arbitrary model).
+#[cfg(feature = "verif")]
+pub fn verif_svc_from_parts<T: RealNumber, M: Matrix<T>, K: Kernel<T, M::RowVector>>(
+    classes: Vec<T>,
+    kernel: K,
+    instances: Vec<M::RowVector>,
+    w: Vec<T>,
+    b: T,
+) -> SVC<T, M, K> {
+    SVC {
+        classes,
+        kernel,
+        instances,
+        w,
+        b,
+    }
+}
